@@ -48,3 +48,44 @@ Proof.
   exists far_iv, 100, 0, witness_evict. split; [lia|]. split; [exact wf_witness_evict|].
   intros [rest H]. vm_compute in H. inversion H.
 Qed.
+
+(* ---- flushFn = nil (the aggregated buffer of MetaAggregator) ----
+   copyToFlush then sets lastFlushTime := stopTime at once, nothing is handed to any flush
+   function, and a reader that is behind the last seal is sent to "disk" for ever: with the
+   buffer's own flushed data as the persisted log (empty), it never receives the sealed
+   events, however many steps it takes.  No trigger of finding 0 is involved. *)
+Definition witness_nilflush : list op := [Add 1000 28 1; Seal; SubStep; SubStep].
+
+Lemma run_repeat_fix : forall iv hf y o n, step iv hf y o = y -> run iv hf y (repeat o n) = y.
+Proof.
+  intros iv hf y o n H. induction n as [|n IH]; [reflexivity|].
+  cbn [repeat run]. rewrite H. exact IH.
+Qed.
+
+Theorem nil_flush_stuck :
+  ops_wf witness_nilflush /\
+  run_trig far_iv false (sys0 100 0) witness_nilflush = None /\
+  map e_id (filter (later 0) (run_events far_iv false (sys0 100 0) witness_nilflush)) = [1%N] /\
+  forall n, got (subs (run far_iv false (sys0 100 0) (witness_nilflush ++ repeat SubStep n))) = [].
+Proof.
+  split; [repeat constructor|]. split; [vm_compute; reflexivity|]. split; [vm_compute; reflexivity|].
+  intros n.
+  assert (Hr : forall a b, run far_iv false (sys0 100 0) (a ++ b)
+                           = run far_iv false (run far_iv false (sys0 100 0) a) b).
+  { intros a. generalize (sys0 100 0). induction a as [|o a IH]; intros y b; [reflexivity|].
+    cbn [app run]. apply IH. }
+  rewrite Hr. rewrite run_repeat_fix; [vm_compute; reflexivity|vm_compute; reflexivity].
+Qed.
+
+(* non-vacuity of the partial theorems: a schedule with timestamp adjustment, size rotation,
+   an interval seal, a lagging flush and a subscriber starting in the middle stays outside
+   the trigger, and the subscriber gets records 3..8 *)
+Definition example_ops : list op :=
+  [Add 1000 26 1; Add 1000 26 2; Add 990 26 3; Add 1020 26 4; SubStep; SubStep;
+   Add 1030 26 5; Seal; FlushWrite; Add 1040 26 6; SubLoop; FlushMark; SubStep;
+   FlushWrite; FlushMark; Add 1050 26 7; Add 1060 26 8; SubStep; SubStep; SubLoop].
+Lemma example_ok :
+  ops_wf example_ops /\ run_trig 1000000 true (sys0 100 1001) example_ops = None /\
+  map e_ts (run_events 1000000 true (sys0 100 1001) example_ops) = [1000; 1001; 1002; 1020; 1030; 1040; 1050; 1060] /\
+  map e_id (got (subs (run 1000000 true (sys0 100 1001) example_ops))) = [3; 4; 5; 6; 7; 8]%N.
+Proof. split; [repeat constructor|]. vm_compute. repeat split; reflexivity. Qed.
